@@ -467,12 +467,69 @@ func instanceProbed(site ssa.CallInstruction) string {
 			}
 			for _, ref := range *ta.Referrers() {
 				if okv, ok := ref.(*ssa.Extract); ok && okv.Index == 1 && boolEdgeDominates(okv, true, site.Block()) {
-					return "dominated by a successful probe of the instance at the current key path (deepGet + container assertion); the path grows by one key per level"
+					// ... and the key path handed down is longer than the one received, on every path
+					// (a key appended only `if key != ""` re-enters the same path for an empty key)
+					grown, any := true, false
+					for _, a := range site.Common().Args {
+						if sl, isSlice := a.Type().Underlying().(*types.Slice); isSlice {
+							if b, isB := sl.Elem().Underlying().(*types.Basic); isB && b.Kind() == types.String {
+								any = true
+								if !pathGrows(a, 0) {
+									grown = false
+								}
+							}
+						}
+					}
+					if any && grown {
+						return "dominated by a successful probe of the instance at the current key path (deepGet + container assertion); the key path handed down is an append to the one received, on every path"
+					}
 				}
 			}
 		}
 	}
 	return ""
+}
+
+// pathGrows: the value is the result of append (to anything), directly, through a closure of the
+// function that returns one, or on every edge of a phi.
+func pathGrows(v ssa.Value, depth int) bool {
+	if depth > 4 {
+		return false
+	}
+	switch x := v.(type) {
+	case *ssa.Call:
+		if b, ok := x.Common().Value.(*ssa.Builtin); ok {
+			return b.Name() == "append" && len(x.Common().Args) == 2
+		}
+		var fn *ssa.Function
+		switch c := x.Common().Value.(type) {
+		case *ssa.MakeClosure:
+			fn, _ = c.Fn.(*ssa.Function)
+		case *ssa.Function:
+			fn = c
+		}
+		if fn == nil || fn.Parent() == nil || fn.Blocks == nil {
+			return false
+		}
+		rets := 0
+		for _, b := range fn.Blocks {
+			if ret, ok := b.Instrs[len(b.Instrs)-1].(*ssa.Return); ok {
+				rets++
+				if len(ret.Results) != 1 || !pathGrows(ret.Results[0], depth+1) {
+					return false
+				}
+			}
+		}
+		return rets > 0
+	case *ssa.Phi:
+		for _, e := range x.Edges {
+			if !pathGrows(e, depth+1) {
+				return false
+			}
+		}
+		return true
+	}
+	return false
 }
 
 // instanceType: a type that can be the traversed instance (any, string, map, slice of any/strings).
